@@ -194,9 +194,10 @@ def r92(ctx, api):
     ok = len(second) == 1
     if ok:
         body = [norm(x) for x in second[0].body]
-        need = ['rgid, fname = (item[0], item[1])', "dst_part = join_path(parts, f'part.{rgid}.parquet')",
-                'dst = join_path(basepath, dst_part)']
-        ok = all(x in body for x in need) and any(_is_rename(g, x.value) and [norm(a) for a in x.value.args] == ['src', 'dst']
+        need = ["dst_part = join_path(parts, f'part.{rgid}.parquet')", 'dst = join_path(basepath, dst_part)']
+        # (the pair (row-group index, file name) unpacked in the loop body or by the loop itself)
+        bound = 'rgid, fname = (item[0], item[1])' in body or norm(second[0].target) in ('(rgid, fname)', 'rgid, fname')
+        ok = bound and all(x in body for x in need) and any(_is_rename(g, x.value) and [norm(a) for a in x.value.args] == ['src', 'dst']
                                                   for x in second[0].body if isinstance(x, ast.Expr)) and any(
             x.startswith('for col in self.fmd.row_groups[rgid].columns:') and 'col.file_path = dst_part' in x for x in body)
     ctx.ob('R9.2', 'api._sort_part_names:new-path-stored-on-the-row-group-whose-file-was-renamed', ok,
